@@ -153,6 +153,16 @@ def _oracle(case, r):
     return None
 
 
+def real(case):      # noqa: F811
+    return muxprop.feedback_real(case) if case['kind'] == 'feedback' else muxprop.real(case)
+
+
+def shrink_candidates(case):      # noqa: F811
+    if case['kind'] == 'feedback':
+        return iter(())
+    return muxprop.shrink_candidates(case)
+
+
 def model_cmds(case):      # noqa: F811
     return [] if case.get('no_model') else muxprop.model_cmds(case)
 
@@ -180,10 +190,16 @@ def cases(tier, rng):
     """every case of `_cases`, and for a fraction of the mux/plain ones the same case run as the SECOND subscription of
     its pipeline object (after an earlier subscription that completed, failed or was disposed)"""
     pr = rng.sub('resubscription')
-    return muxprop.with_preludes(_cases(tier, rng), pr)
+    # feedback loops (a subscriber pushing a follow-up item from inside its on_next): the fold sees the items in the order pushed
+    for c in muxprop.feedback_cases(tier, rng.sub('feedback'), plain_share=0.3):
+        yield c
+    for c in muxprop.with_preludes(_cases(tier, rng), pr):
+        yield c
 
 
 def oracle(case, r):
+    if case['kind'] == 'feedback':
+        return muxprop.feedback_violation(case, r)
     v = muxprop.prelude_violation(case, r)
     if v or case.get('share'):
         return v        # the shared-operator variant wraps the pipeline in a tee_map: judged against separately built operators only
